@@ -2,6 +2,7 @@ import Gv.Sexp
 import Gv.Model.Eval
 import Gv.Driver.Gen
 import Gv.Spec.Structural
+import Gv.Model.PlanCheck
 
 namespace Gv.Driver
 open Gv Gv.Sexp Gv.Eval
@@ -143,6 +144,8 @@ def handleEval (req : Sexp) : Sexp :=
             else mkList "r" [outcomeOut out, mkList "specdiff" [.str "structural", spOut]]
         | none => mkList "r" [mkList "stuck" [.str "no such method"]]
       | [] => mkList "r" [mkList "stuck" [.str "bad call"]])
-    mkList "ok" outs
+    -- is the whole program inside the fragment of the composite theorem (Gv.Props.C02.C02_composite)?
+    let frag := if wantSpec then [mkList "fragment" [.atom (toString (PlanCheck.checkProg prog))]] else []
+    mkList "ok" (outs ++ frag)
 
 end Gv.Driver
